@@ -106,6 +106,8 @@ func main() {
 		cmdReclaim(os.Args[2:])
 	case "crash":
 		cmdCrash(os.Args[2:])
+	case "fault":
+		cmdFault(os.Args[2:])
 	default:
 		fmt.Fprintf(os.Stderr, "unknown command %q\n", os.Args[1])
 		os.Exit(2)
